@@ -57,6 +57,10 @@ func (u *Unit) execInstr(fr *Frame, st *State, in ssa.Instruction) {
 		case *PtrV:
 			fr.vals[x] = &PtrV{Cell: b.Cell, Base: b.Base, Root: b.Root, Path: append(append([]string{}, b.Path...), fname), Elem: ftyp, RTyp: b.RTyp}
 		case *Scalar:
+			if !isOwnAlloc(b.T) && b.T.S != "this" {
+				u.oblige("nopanic.nil_deref", u.panicProps(), "", st.pc, Not(Eq(b.T, TZero)), where, "field access through a nil *"+structRootName(pt))
+				u.assume(st.pc, Not(Eq(b.T, TZero)))
+			}
 			fr.vals[x] = &PtrV{Base: b.T, Root: structRootName(pt), Path: []string{fname}, Elem: ftyp, RTyp: pt}
 		default:
 			u.note("FieldAddr on %T in %s", base, fr.key)
@@ -115,6 +119,11 @@ func (u *Unit) execInstr(fr *Frame, st *State, in ssa.Instruction) {
 			v, has := u.mapLookup(st, mv, u.termOf(k))
 			zero, _ := valTerm(u.zeroVal(et))
 			val := &Scalar{T: u.define(Ite(has, v, zero), "mval"), Typ: et}
+			if isPointer(et) {
+				// the pointers a map holds are non-nil (listed under assumptions)
+				u.assume(st.pc, Implies(has, Not(Eq(v, TZero))))
+				u.assumedUsed["convention the pointer values stored in a map are non-nil"]++
+			}
 			if x.CommaOk {
 				fr.vals[x] = &TupleV{Vs: []Val{val, &Scalar{T: has, Typ: types.Typ[types.Bool]}}}
 			} else {
@@ -767,6 +776,11 @@ func (u *Unit) typeAssert(fr *Frame, st *State, x *ssa.TypeAssert, where string)
 				}
 			} else {
 				val = &Scalar{T: p, Typ: x.AssertedType}
+				if isPointer(x.AssertedType) {
+					// a typed nil pointer inside an interface value is not considered (listed under assumptions)
+					u.assume(st.pc, Implies(ok, Not(Eq(p, TZero))))
+					u.assumedUsed["convention a successful type assertion to a pointer type yields a non-nil pointer"]++
+				}
 			}
 		}
 	}
